@@ -361,6 +361,23 @@ def in_limits(mol):
     return True
 
 
+def struct_limits(mol):
+    """the documented limits without the coordinate range (the hypothesis WF of the Lean theorems)"""
+    if not mol._atoms or len(mol._atoms) > 4095:
+        return False
+    common = _state.get('pack_iso') or gen_packtables.tables()[0]
+    for n, a in mol._atoms.items():
+        if not (1 <= n <= 4095) or len(mol._bonds[n]) > 15 or not (-4 <= a._charge <= 4):
+            return False
+        if a._implicit_hydrogens is not None and not (0 <= a._implicit_hydrogens <= 6):
+            return False
+        if a._isotope is not None and not (1 <= a._isotope - common[a.atomic_number] <= 31):
+            return False
+        if any(int(b) not in (1, 2, 3, 4, 8) for b in mol._bonds[n].values()):
+            return False
+    return True
+
+
 def oracle_mol(mol, common=None):
     """property oracle on the real code. Returns list of (signature, what)."""
     from chython import MoleculeContainer
@@ -644,6 +661,15 @@ def add_mol_cases(batch, name, mol, sample=False):
             return f'pack outcome: model {res[0]} {str(res[1])[:60]} real {rp[0]} {str(rp[1])[:60]} [{name}]'
         return None
     batch.add('pack', 'pack', req, c_pack, nt)
+    lim = struct_limits(mol)
+    ctx.dist('within-format-limits' if lim else 'outside-format-limits')
+
+    def c_wf(res):
+        ctx.dist('wfb=%s' % (res[1][0] if res[0] == 'ok' else res))
+        if lim and res != ('ok', [1]):
+            return f'the theorems\' hypothesis WF does not hold for a molecule within the format limits [{name}]: {res}'
+        return None
+    batch.add('wf-hypothesis', 'wf', req, c_wf, nt)
     if sample:
         ctx.sample({'request': line('pack', req)[:300], 'real': (rp[0] + ' ' + ' '.join(map(str, rp[1])))[:300] if rp[0] == 'ok' else rp})
     if rp[0] != 'ok':
